@@ -247,10 +247,12 @@ inductive HookId
   | resetCleanup
   deriving DecidableEq, Repr
 
-/-- The operations a hook body can perform (the five of the property's quantifier, plus the prompt
-    redisplay that `complete_symbol` does after something was logged). -/
+/-- The operations a hook body can perform (the five of the property's quantifier; scope analysis raising
+    `SyntaxError` is kept apart because `auto_import` treats it as the user's syntax error; plus the prompt
+    redisplay that `AutoImporter.complete_symbol` does after something was logged).
+    `dbLoad` includes parsing the database files; `parse` is the parse of the user's code / script. -/
 inductive OpKind
-  | dbLoad | parse | scan | importExec | completion | redisplay
+  | dbLoad | parse | scan | scanSyntax | importExec | completion | redisplay
   deriving DecidableEq, Repr
 
 /-- Where an operation of a hook runs. -/
@@ -262,33 +264,37 @@ inductive Prot
   | none         -- unprotected: an exception propagates to IPython
   deriving DecidableEq, Repr
 
+def isCompleter : HookId → Bool
+  | .globalMatches | .attrMatches => true
+  | _ => false
+
 /-- The protection table, read off the hook bodies (validated against the code by fault injection). -/
 def prot (cfg : Cfg) : HookId → OpKind → Prot
   -- ofind / ast transformer / %prun: `self.auto_import(...)` = `_safe_call(auto_import, ...)`;
-  -- `_try_import` catches the import's own exception; `auto_import` catches SyntaxError of the scan itself
+  -- `auto_import` catches the scan's SyntaxError, `_try_import` the import's own exception
   | .ofind, .dbLoad | .astVisit, .dbLoad | .prun, .dbLoad => .safe
   | .ofind, .scan | .astVisit, .scan | .prun, .scan => .safe
+  | .ofind, .scanSyntax | .astVisit, .scanSyntax | .prun, .scanSyntax => .localOrig
   | .ofind, .importExec | .astVisit, .importExec | .prun, .importExec => .localOrig
   | .ofind, _ | .astVisit, _ | .prun, _ => .na
-  -- completers: `_safe_call(complete_symbol, ..., on_error=__original__)`
+  -- completers: `_safe_call(complete_symbol, ..., on_error=__original__)`; for a dotted name the parent is
+  -- evaluated by `auto_eval` inside `try/except Exception: return []` (IPython passes dotted text to
+  -- global_matches as well)
   | .globalMatches, .dbLoad | .globalMatches, .completion => .safe
-  | .globalMatches, .redisplay => if cfg.redisplayGuard then .na else .none
-  | .globalMatches, _ => .na
   | .attrMatches, .dbLoad | .attrMatches, .completion => .safe
-  | .attrMatches, .scan | .attrMatches, .importExec => .localEmpty     -- auto_eval inside try/except: return []
-  | .attrMatches, .redisplay => if cfg.redisplayGuard then .na else .none
-  | .attrMatches, .parse => .na
+  | .globalMatches, .redisplay | .attrMatches, .redisplay => if cfg.redisplayGuard then .na else .none
+  | .globalMatches, _ | .attrMatches, _ => .localEmpty
   -- %run: PythonBlock(...) inside try/except Exception: logger.error; auto_import via _safe_call
   | .safeExecfile, .parse => .localOrig
   | .safeExecfile, .dbLoad | .safeExecfile, .scan => .safe
-  | .safeExecfile, .importExec => .localOrig
+  | .safeExecfile, .scanSyntax | .safeExecfile, .importExec => .localOrig
   | .safeExecfile, _ => .na
   -- postmortem %debug: only installs Pdb advice
   | .debuggerTB, _ => .na
   -- %debug <statement>: ImportDB.get_default / auto_import called directly
   | .runWithDebugger, .dbLoad | .runWithDebugger, .scan =>
       if cfg.debugHookSafe then .safe else .none
-  | .runWithDebugger, .importExec => .localOrig
+  | .runWithDebugger, .scanSyntax | .runWithDebugger, .importExec => .localOrig
   | .runWithDebugger, _ => .na
   | .resetCleanup, _ => .na
 
@@ -339,8 +345,11 @@ def raiseIn (cfg : Cfg) (st : St) (h : HookId) (k : OpKind) : Invocation :=
   match prot cfg h k with
   | .na => ⟨st, ownResult h, true⟩                         -- cannot raise where nothing is done
   | .safe =>
+    -- `_safe_call` logs the error; inside a completer that makes the prompt redisplay run on exit
     ⟨disable { st with ai := { st.ai with errored := true } },
-     if cfg.debug && raisesInDebug h then .exception else .original, true⟩
+     if cfg.debug && raisesInDebug h then .exception
+     else if isCompleter h && !cfg.redisplayGuard then .exception
+     else .original, true⟩
   | .localOrig => ⟨st, ownResult h, true⟩
   | .localEmpty => ⟨st, .pyflyby, true⟩
   | .none => ⟨st, .exception, true⟩
